@@ -88,9 +88,11 @@ def replay_and_validate(run, binmode, trace_module, vec_paths, name):
         rej, r = core.validate(trace_module, tp, n_events=len(events), timeout=3000, xmx="3g")
         why = {}
         for line in r.out.splitlines():
-            m = re.match(r'<<"REJECT", (\d+), "([a-z_]*)">>', line)
+            m = re.match(r'<<"REJECT", (\d+), "([a-z0-9_]*)"(?:, "([a-z0-9_]*)")?', line)
             if m:
-                why[int(m.group(1))] = m.group(2)
+                # label (goes into the signature) and, when different, the clause broken
+                why[int(m.group(1))] = m.group(2) if m.group(3) in (None, m.group(2)) \
+                    else m.group(2) + ":" + m.group(3)
         for i in rej:
             why.setdefault(i, "rejected")
         return events, why, r
@@ -165,7 +167,7 @@ def check(run, vec_paths=None):
                     outcomes[("pair_" if k in ("eo", "oe") else "same_parity_") + ev[k]["o"]] += 1
         for i, w in sorted(why.items()):
             ev = events[i - 1]
-            run.report({"check": "global", "why": w}, explain04(ev, w))
+            run.report({"check": "global", "why": w.split(":")[0]}, explain04(ev, w))
         if events and len(samples) < 3:
             samples.append(events[len(events) // 3])
     if nvec and n_events != nvec:
@@ -206,7 +208,7 @@ def check(run, vec_paths=None):
         "positions are quantised to the lattice u = 360/2^24 degrees (2.39 m); between lattice points nothing is claimed",
         "the ruler (haversine on the mean sphere, R = 6371008.8 m, in the harness) is trusted; so are the lattice-to-degree conversion and the f64-to-integer logging",
         "NLTable.tla is generated from the decimal NL table with exact rational arithmetic and cross-checked against the closed formula of DO-260B A.1.7.2 d at every run",
-        "at a latitude whose exact Rlat is within 1e-9 degree of a transition latitude (only 87.0 even) either outcome is accepted",
+        "NL(+-87) = 2 as DO-260B A.1.7.2 d defines it (Rlat = 87 exactly is reachable by even reports and exactly representable; it is judged like any other point and labelled nl_87_exact when rejected); the float-tie exemption (Rlat within 1e-9 degree of, but not equal to, a transition) is empty on the 2^17 grid (closest approach 4.7e-9 degree)",
         "bit assembler and parity by long division in the harness are trusted (validated by C02)",
     ]
 
@@ -226,7 +228,7 @@ def replay(run, path):
         for ev in events:
             print("replayed:", json.dumps(ev))
         for i, w in sorted(why.items()):
-            run.report({"check": "global", "why": w}, explain04(events[i - 1], w))
+            run.report({"check": "global", "why": w.split(":")[0]}, explain04(events[i - 1], w))
         run.cov.update({"evaluations": len(events), "distinct_nontrivial": len(events),
                         "traces_validated_against_impl": 1, "samples": events[:2],
                         "rule": "replay of recorded failing vectors"})
